@@ -58,10 +58,12 @@ m("C10-b-no-skip-size1-flatmap", "C10", "src/core/flatmap_fil_find.rs",
 m("C11-a-exact-grows", "C11", "src/core/runner.rs",
   "ResolvedChunkSize::Exact(x) => Some(x),", "ResolvedChunkSize::Exact(x) => Some(x * (1 + num_spawned_threads / 4)),")
 m("C11-b-exact-is-min-unknown-len", "C11", "src/core/runner_settings/chunk_size.rs",
-  "ChunkSize::Exact(x) => ResolvedChunkSize::Exact(x.into()),", """ChunkSize::Exact(x) => match input_len {
-            Some(_) => ResolvedChunkSize::Exact(x.into()),
+  "ChunkSize::Exact(x) => ResolvedChunkSize::Exact(exact_chunk_size(input_len, x.into())),", """ChunkSize::Exact(x) => match input_len {
+            Some(_) => ResolvedChunkSize::Exact(exact_chunk_size(input_len, x.into())),
             None => ResolvedChunkSize::Min(x.into()),
         },""")
+m("C15-c-unfix-chunk-clamp", "C15", "src/core/runner_settings/chunk_size.rs",
+  "        Some(len) => chunk_size.min(len.max(1)),", "        Some(_len) => chunk_size,")
 m("C13-a-merge-keeps-first-vector", "C13", "src/core/map_fil_col.rs",
   """        output.push(unsafe { ptr.add(idx).read().1 });
     }
